@@ -581,7 +581,37 @@ def _as_array(v, node=None):
     raise Outside(f"array from {type(v).__name__}", node)
 
 
+_NARROW = {"int8": (-128, 127), "uint8": (0, 255), "int16": (-(2**15), 2**15 - 1), "int32": (-(2**31), 2**31 - 1)}
+
+
 def np_array(interp, st, args, kwargs, node):
+    out = _np_array_core(interp, st, args, kwargs, node)
+    dtype = kwargs.get("dtype")
+    if dtype is not None and isinstance(out, (Arr, Grid)) and out.kind == "int":
+        try:
+            kind_, dname_ = _dtype_kind(dtype)
+        except Outside:
+            return out
+        rng_ = _NARROW.get(dname_) if kind_ == "int" else None
+        src = args[0]
+        if rng_ is not None and getattr(src, "dtype", None) != dname_:
+            # narrowing cast: numpy wraps silently (or warns); every entry must fit, an obligation of the caller
+            ln = getattr(node, "lineno", "?")
+            if isinstance(out, Arr):
+                for e in out.flat:
+                    if is_sym(e):
+                        interp.ctx.oblige(st, z3.And(to_z3(as_int(e)) >= rng_[0], to_z3(as_int(e)) <= rng_[1]), f"{dname_}-range@{ln}", node, "dtype")
+                    elif not (rng_[0] <= e <= rng_[1]):
+                        interp.ctx.oblige(st, False, f"{dname_}-range@{ln}", node, "dtype")
+            else:
+                qs = [z3.Int(V.fresh_name("nq")) for _ in out.dims]
+                inr = z3.And(*[z3.And(q >= 0, q < to_z3(as_int(d))) for q, d in zip(qs, out.dims)])
+                interp.ctx.oblige(st, z3.ForAll(qs, z3.Implies(inr, z3.And(out.select(qs) >= rng_[0], out.select(qs) <= rng_[1]))), f"{dname_}-range@{ln}", node, "dtype")
+                return Grid(out.dims, out.arr, out.kind, out.count, dname_)
+    return out
+
+
+def _np_array_core(interp, st, args, kwargs, node):
     v = args[0]
     dtype = kwargs.get("dtype")
     from .filt import FiltList
@@ -589,9 +619,9 @@ def np_array(interp, st, args, kwargs, node):
     if isinstance(v, FiltList):
         # np.array(list of selected rows): the same filtered view, as an array
         return FiltList(v.src, v.keep, as_array=True)
-    if isinstance(v, Grid) and dtype is not None and v.kind == "int":
+    if isinstance(v, (Grid, Arr)) and dtype is not None and v.kind == "int":
         kind_, dname_ = _dtype_kind(dtype)
-        if kind_ == "int" and dname_ in ("int64", "int"):
+        if kind_ == "int" and dname_ in ("int64", "int") and isinstance(v, Grid):
             # widening cast: same values, the dtype is now known (matters for tobytes)
             return Grid(v.dims, v.arr, v.kind, v.count, "int64")
     if isinstance(v, (Arr, Grid)):
